@@ -12,6 +12,8 @@ import (
 	"github.com/cosmos/cosmos-sdk/crypto/keys/secp256k1"
 	sdk "github.com/cosmos/cosmos-sdk/types"
 	authtypes "github.com/cosmos/cosmos-sdk/x/auth/types"
+
+	"github.com/unification-com/mainchain/app"
 )
 
 // Modules maps the module account tokens of PROTOCOL.md §1 to module names.
@@ -44,6 +46,42 @@ func NewSymbols(n int) *Symbols {
 		s.Mods[tok] = authtypes.NewModuleAddress(name)
 	}
 	return s
+}
+
+// ModuleTokens lists the module account tokens in token order.
+var ModuleTokens = []string{"Mbond", "Mdist", "Ment", "Mfee", "Mgov", "Mnbond", "Mstr", "Mxfer"}
+
+// AddrTable returns the "G addr" table (§6) for n scenario accounts: A0…A<n-1>, then the module
+// tokens in token order, each with the lower-case hex of its address bytes.
+func AddrTable(n int) [][2]string {
+	configOnce.Do(app.SetConfig) // before any bech32 string is built (the SDK caches them)
+	s := NewSymbols(n)
+	var out [][2]string
+	for i, a := range s.Addrs {
+		out = append(out, [2]string{fmt.Sprintf("A%d", i), fmt.Sprintf("%x", []byte(a))})
+	}
+	for _, tok := range ModuleTokens {
+		out = append(out, [2]string{tok, fmt.Sprintf("%x", []byte(s.Mods[tok]))})
+	}
+	return out
+}
+
+// CheckAddrs verifies "G addr" lines against the real derivation.
+func (s *Symbols) CheckAddrs(lines [][2]string) error {
+	for _, l := range lines {
+		var want sdk.AccAddress
+		if m, ok := s.Mods[l[0]]; ok {
+			want = m
+		} else if i, err := s.AcctIndex(l[0]); err == nil {
+			want = s.Addrs[i]
+		} else {
+			return fmt.Errorf("G addr: unknown token %q", l[0])
+		}
+		if l[1] != fmt.Sprintf("%x", []byte(want)) {
+			return fmt.Errorf("G addr %s: script says %s, real derivation gives %x", l[0], l[1], []byte(want))
+		}
+	}
+	return nil
 }
 
 // AcctIndex parses an "A<i>" token of a declared account.
